@@ -19,7 +19,7 @@ import ast
 from .. import pump
 from ..cfg import CFG
 from ..flow import yields_in
-from ..project import AnalysisError, call_name, norm, walk_no_nested
+from ..project import AnalysisError, call_name, norm, order, walk_no_nested
 
 
 def check(run, project):
@@ -52,6 +52,11 @@ def check(run, project):
         run.ob("T1", not bad, f"send(None) at L{node.lineno} only after an event",
                f"None is pushed while the processor waits for a byte (states {bad})", module=mod, node=node,
                func=fn.name, construct=norm(node.ast))
+    for node in {id(n): n for n, _ in F.cleared}.values():
+        bad = sorted({st for n, st in F.cleared if n is node and st[0] == "FRESH"})
+        run.ob("T1", not bad, f"look-ahead variable cleared at L{node.lineno} only after its byte was consumed",
+               f"the look-ahead variable is reset while it holds an unconsumed byte (states {bad}): that byte is dropped",
+               module=mod, node=node, func=fn.name, construct=norm(node.ast))
     for node in {id(n): n for n, _ in F.send_other}.values():
         run.ob("T1", False, f"send at L{node.lineno}", "the processor is sent something that is neither the look-ahead byte nor None",
                module=mod, node=node, func=fn.name, construct=norm(node.ast))
@@ -161,7 +166,7 @@ def promptness(run, roles):
     if not reqs or not evs:
         raise AnalysisError("C10: byte request / event yield of the primitive walker not found")
     dom = cfg.dominators()
-    first_ev = min(evs, key=lambda n: n.lineno)
+    first_ev = min(evs, key=lambda n: order(n.ast))
     # no byte request is reachable after the first event yield
     seen, stack = set(), [s for _, s in first_ev.succ]
     late = []
@@ -183,7 +188,7 @@ def promptness(run, roles):
 
 
 def _in_loop_before(r, ev):
-    return r.lineno is not None and ev.lineno is not None and r.lineno < ev.lineno
+    return order(r.ast) < order(ev.ast)
 
 
 BUFFER_FUNCS = [
